@@ -2,7 +2,7 @@
    Mirrors run()'s loop body and syscall() line by line.  uint32_t values are Z in [0,2^32) with
    explicit reduction; an out-of-range std::array index is the outcome SUB (undefined behaviour).
    No proofs here (see SimProofs.v). Tied to the C++ by tools/c02 (correspondence through the HEX_VERIF hook). *)
-From Coq Require Import ZArith List String.
+From Coq Require Import ZArith List String Bool.
 From HexVerif Require Import WMap Isa.
 Import ListNotations.
 Local Open Scope Z_scope.
@@ -130,3 +130,55 @@ Definition init (background : Z -> Z) (exit0 : Z) (ws : list Z) : sim :=
 
 Definition arch_of (s : sim) : arch :=
   {| pc := s_pc s; areg := s_areg s; breg := s_breg s; oreg := s_oreg s; mem := s_mem s |}.
+
+(* ------------------------------------------------------------------ tracing (-t) *)
+(* trace(instr, instrEnum) runs after `pc = pc + 1; oreg = oreg | (instr & 0xF)` and before the instruction executes;
+   it prints, and for the load forms it reads memory[...] at the address the instruction is about to read. *)
+Definition trace_addrs (s : sim) : list Z :=
+  let instr := sim_fetch s in
+  let oreg := Z.lor (s_oreg s) (Z.land instr 15) in
+  match Z.land (Z.shiftr instr 4) 15 with
+  | 0 | 1 => [oreg]                                   (* memory[oreg] *)
+  | 6 => [u32 (s_areg s + oreg)]                      (* memory[areg+oreg] *)
+  | 7 => [u32 (s_breg s + oreg)]                      (* memory[breg+oreg] *)
+  | _ => []
+  end.
+(* traceSyscall() runs after syscall(): unsigned spWordIndex = memory[1]; then per call the argument words *)
+Definition is_svc (s : sim) : bool :=
+  let instr := sim_fetch s in
+  (Z.land (Z.shiftr instr 4) 15 =? 13) && (Z.lor (s_oreg s) (Z.land instr 15) =? 3).
+Definition trace_syscall_addrs (s s' : sim) : list Z :=
+  let sp := rd (s_mem s') 1 in
+  match s_areg s with
+  | 0 => [1; u32 (sp + 2)]
+  | 1 => [1; u32 (sp + 2); u32 (sp + 3)]
+  | 2 => [1; u32 (sp + 1)]
+  | _ => []
+  end.
+(* one loop iteration with tracing on: the extra reads are undefined behaviour if out of range; nothing else changes *)
+Definition step_traced (s : sim) (inp : inputs) : sim_result (sim * inputs * event) :=
+  if negb (idx_ok (Z.shiftr (s_pc s) 2)) then SUB "memory[pc >> 2]" else
+  if negb (forallb idx_ok (trace_addrs s)) then SUB "trace: memory[] read" else
+  match step s inp with
+  | SOk (s', inp', ev) =>
+      if is_svc s && negb (forallb idx_ok (trace_syscall_addrs s s')) then SUB "traceSyscall: memory[] read"
+      else SOk (s', inp', ev)
+  | r => r
+  end.
+
+(* the repaired constructor + load(): memory{} and exitCode(0) *)
+Definition cpp_init (ws : list Z) : sim := init (fun _ => 0) 0 ws.
+
+(* Processor::run() with tracing on *)
+Fixpoint run_traced (n : nat) (max_cycles : Z) (s : sim) (inp : inputs) (evs : list event)
+  : list event * inputs * sim * run_end :=
+  if negb (guard max_cycles s) then (rev evs, inp, s, Returned (s_exit s)) else
+  match n with
+  | O => (rev evs, inp, s, NoFuel)
+  | S k => match step_traced s inp with
+           | SThrow m => (rev evs, inp, s, Threw m)
+           | SUB w => (rev evs, inp, s, Ub w)
+           | SOk (s', inp', Tau) => run_traced k max_cycles s' inp' evs
+           | SOk (s', inp', e) => run_traced k max_cycles s' inp' (e :: evs)
+           end
+  end.
